@@ -67,7 +67,10 @@ type Runner struct {
 	Applied map[*chaingen.Node]bool // nodes that were on the best chain at some time (full state, supplement)
 	pendUpd []updRec
 	// DeferNext: the next recorded call does not read the pool; the call after it is made first
-	DeferNext     bool
+	DeferNext bool
+	// CorruptIndex: the next UpdateV2TransactionSet / V2TransactionSet call is given an index whose
+	// height contradicts the block it names (one shot)
+	CorruptIndex  bool
 	deferred      []rec
 	lastRev       *chaingen.Node
 	minedFromPool map[*chaingen.Node]bool           // blocks mined from the pool by coreutils.MineBlock and adopted
@@ -445,24 +448,15 @@ func (r *Runner) Lookup2(id types.TransactionID) (t types.V2Transaction, ok, pan
 	return
 }
 
-// ErrClass maps the error text of a rebase to the model's classes.
-func ErrClass(err error) int {
-	s := err.Error()
-	switch {
-	case strings.Contains(s, "couldn't find state for basis"):
-		return 0
-	case strings.Contains(s, "invalid Merkle proof"):
-		return 1
-	case strings.Contains(s, "too long"):
-		return 2
-	case strings.Contains(s, "couldn't determine reorg path"):
-		return 3
-	case strings.Contains(s, "missing reverted block"), strings.Contains(s, "missing applied block"):
-		return 4
-	case strings.Contains(s, "references element that does not exist"):
-		return 5
+// errRes projects a failed rebase: only "an error was returned" is observed (never the
+// wording, nor which of several applicable errors). CorruptIndex (one shot) marks a call whose
+// chain index has a height that contradicts its block: there any error is admissible.
+func (r *Runner) errRes(err error) Res {
+	k := "err"
+	if r.CorruptIndex {
+		k = "reject"
 	}
-	return 99
+	return Res{Kind: k, Text: err.Error()}
 }
 
 // TxSet calls V2TransactionSet.
@@ -479,8 +473,9 @@ func (r *Runner) TxSet(basis types.ChainIndex, t types.V2Transaction, m Meta) (i
 			}
 		}()
 		idx, set, err = r.CM.V2TransactionSet(basis, t)
+		defer func() { r.CorruptIndex = false }()
 		if err != nil {
-			rc.Res = Res{Kind: "err", Class: ErrClass(err), Text: err.Error()}
+			rc.Res = r.errRes(err)
 		} else {
 			rc.Res = Res{Kind: "ok", Basis: idx}
 			for _, x := range set {
@@ -529,8 +524,9 @@ func (r *Runner) Update(txs []types.V2Transaction, metas []Meta, from, to types.
 			}
 		}()
 		out, err = r.CM.UpdateV2TransactionSet(txs, from, to)
+		defer func() { r.CorruptIndex = false }()
 		if err != nil {
-			rc.Res = Res{Kind: "err", Class: ErrClass(err), Text: err.Error()}
+			rc.Res = r.errRes(err)
 		} else {
 			rc.Res = Res{Kind: "ok", Basis: to}
 			for _, x := range out {
@@ -697,7 +693,9 @@ func (r *Runner) CoqCase() string {
 		case "ok":
 			res = fmt.Sprintf("XOk %s %s", nm.CoqIndex(rc.Res.Basis), nm.CoqForm(rc.Res.Form))
 		case "err":
-			res = fmt.Sprintf("XErr %d", rc.Res.Class)
+			res = "XErr 0"
+		case "reject":
+			res = "XReject"
 		}
 		cmt := ""
 		if rc.Res.Text != "" {
